@@ -62,7 +62,7 @@ fn systems(th: bool) -> Vec<LinkSys> {
     let mut v = Vec::new();
     let quiet = || LinkActor { script: vec![], echo: false, ignore: None };
     // every sequence of <= 3 (2) messages over payloads {1,2,3} without repetition, plus repeated payloads
-    let max = if th { 3 } else { 2 };
+    let max = 3;
     let mut seqs: Vec<Vec<u8>> = vec![vec![1], vec![1, 2], vec![2, 1], vec![1, 1]];
     if max >= 3 {
         seqs.extend(vec![vec![1, 2, 3], vec![3, 1, 2], vec![1, 2, 1], vec![2, 2, 2]]);
@@ -116,9 +116,9 @@ pub fn run_c16(a: &Args, shared: &SharedReport) {
     {
         let mut r = shared.lock().unwrap();
         r.rule = "every reachable state (explicit search, de-duplicated on the state's own Hash/Eq) of every link-wrapped system in the family over lossy duplicating and non-duplicating unordered networks within the network-size boundary; invariants: handed-over sequence is a prefix of the sent sequence, nothing is acknowledged before it was handed over, all acknowledged => sequences equal; non-trivial = at least one message was handed over or dropped".into();
-        r.bounds = json!({"messages_per_flow": if th {"<=3"} else {"<=2"}, "network_boundary": if th {"len <= 5"} else {"len <= 4"}, "systems": "one-way scripts (distinct and repeated payloads), two-way, echo, one sender to two peers", "networks": ["unordered duplicating lossy", "unordered non-duplicating lossy"]});
+        r.bounds = json!({"messages_per_flow": "<=3", "network_boundary": if th {"len <= 6"} else {"len <= 5"}, "systems": "one-way scripts (distinct and repeated payloads), two-way, echo, one sender to two peers", "networks": ["unordered duplicating lossy", "unordered non-duplicating lossy"]});
     }
-    let bound = if th { 5 } else { 4 };
+    let bound = if th { 6 } else { 5 };
     let mut idx = 0u64;
     for sys in systems(th) {
         for dup in [true, false] {
@@ -141,7 +141,7 @@ pub fn run_c16(a: &Args, shared: &SharedReport) {
                 q.push_back(0usize);
             }
             let mut transitions = 0u64;
-            let cap = 400_000usize;
+            let cap = if th { 3_000_000usize } else { 600_000usize };
             let mut capped = false;
             let mut viol: Vec<(String, String)> = Vec::new();
             let n = sys.actors.len();
